@@ -29,7 +29,7 @@ JudgeNest(r, e, q, must) ==
   ELSE IF ~NoPlaceholder(r.out) THEN "placeholder"
   ELSE IF must /\ ~Contains(r.out, q) THEN "payload"
   ELSE IF ~Recoverable(r.c) THEN "mismatch"
-  ELSE IF ~Ambiguous(r.fs) /\ r.out # e THEN "frame"
+  ELSE IF Exact(r.fs) /\ r.out # e THEN "frame"
   ELSE "ok"
 \* (the model's intermediate and final results are bound, so they are evaluated once)
 Judge(r) ==
